@@ -9,7 +9,7 @@ namespace Desync
 open Gen
 
 def pcName : Pc → String
-  | .ret => "ret" | .dead => "dead" | .begin _ _ => "begin" | .body _ _ => "body" | .panicked => "panicked"
+  | .ret => "ret" | .dead => "dead" | .begin _ _ => "begin" | .body _ _ => "body" | .panicked => "panicked" | .unwinding _ => "unwinding"
   | .stReap _ => "stReap" | .stScanLock _ => "stScanLock" | .stScan _ _ => "stScan" | .stScanHeld _ _ => "stScanHeld"
   | .stScanRel _ _ _ => "stScanRel" | .stScanUnlock _ _ => "stScanUnlock" | .stReadMax _ => "stReadMax"
   | .stSpawn _ _ => "stSpawn" | .stSpawnRel _ => "stSpawnRel"
